@@ -392,12 +392,35 @@ func addRuleErrKind(err error) string {
 type routeEnv struct {
 	fx      *Fixture
 	methods []protoreflect.MethodDescriptor
+	n       int
 }
 
+func (env *routeEnv) methodName(i int) string {
+	if i < env.n {
+		return "/verif.v1.Svc/M" + strconv.Itoa(i)
+	}
+	return "/verif.v1.Svc2/M" + strconv.Itoa(i-env.n)
+}
+
+var routeEnvN = 3
+
+func methodIndex(name string) int {
+	if strings.HasPrefix(name, "/verif.v1.Svc2/M") {
+		i, _ := strconv.Atoi(strings.TrimPrefix(name, "/verif.v1.Svc2/M"))
+		return i + routeEnvN
+	}
+	i, _ := strconv.Atoi(strings.TrimPrefix(name, "/verif.v1.Svc/M"))
+	return i
+}
+
+// method index i < n is Svc.Mi, i >= n is Svc2.M(i-n): same short names in another service.
 func newRouteEnv(n int) (*routeEnv, error) {
 	var ms []*MethodSpec
 	for i := 0; i < n; i++ {
 		ms = append(ms, &MethodSpec{Name: "M" + strconv.Itoa(i), In: "Req", Out: "Reply"})
+	}
+	for i := 0; i < n; i++ {
+		ms = append(ms, &MethodSpec{Service: "Svc2", Name: "M" + strconv.Itoa(i), In: "Req", Out: "Reply"})
 	}
 	fdp := buildFile(ms)
 	files, fd, err := newFiles(fdp)
@@ -405,10 +428,13 @@ func newRouteEnv(n int) (*routeEnv, error) {
 		return nil, err
 	}
 	env := &routeEnv{fx: &Fixture{Files: files, File: fd, Methods: ms}}
-	sd := fd.Services().Get(0)
-	for i := 0; i < n; i++ {
-		env.methods = append(env.methods, sd.Methods().ByName(protoreflect.Name("M"+strconv.Itoa(i))))
+	for si := 0; si < 2; si++ {
+		sd := fd.Services().Get(si)
+		for i := 0; i < n; i++ {
+			env.methods = append(env.methods, sd.Methods().ByName(protoreflect.Name("M"+strconv.Itoa(i))))
+		}
 	}
+	env.n = n
 	return env, nil
 }
 
@@ -425,7 +451,7 @@ func (env *routeEnv) buildImplTrie(rules []rrule) (*larking.VerifTrie, []string)
 					res = "panic"
 				}
 			}()
-			if err := next.AddRule(r.httpRule(), env.methods[r.method], "/verif.v1.Svc/M"+strconv.Itoa(r.method)); err != nil {
+			if err := next.AddRule(r.httpRule(), env.methods[r.method], env.methodName(r.method)); err != nil {
 				return "err:" + addRuleErrKind(err)
 			}
 			return "ok"
@@ -466,7 +492,7 @@ func implRoute(t *larking.VerifTrie, verb, path string) (rr routeResult) {
 		rr.line = "fail " + rr.class
 		return
 	}
-	mi, _ := strconv.Atoi(strings.TrimPrefix(m.Name, "/verif.v1.Svc/M"))
+	mi := methodIndex(m.Name)
 	rr.method, rr.class = mi, "found"
 	rr.caps = binding{}
 	var caps []string
